@@ -475,9 +475,11 @@ func (r *resolver) elem(ds *ast.Schema, typ, field string, t *ast.Type, parentKe
 	case ast.Enum:
 		return d.EnumValues[pick%len(d.EnumValues)].Name
 	case ast.Scalar:
+		// "__epoch" > 0: the data of the services has changed (all values but ids move)
+		ep := r.cnt["__epoch"]
 		switch name {
 		case "Int":
-			return int64(n*10 + len(field) + s)
+			return int64(n*10 + len(field) + s + ep*1000)
 		case "Float":
 			return float64(n) + 0.5 + float64(s)
 		case "Boolean":
@@ -485,6 +487,9 @@ func (r *resolver) elem(ds *ast.Schema, typ, field string, t *ast.Type, parentKe
 		case "ID":
 			return fmt.Sprintf("x%d-%s", n, field)
 		default: // String and custom scalars
+			if ep > 0 {
+				return field + "@" + parentKey + gqlref.CanonArgs(args) + idxSuffix(idx) + fmt.Sprintf("#e%d", ep)
+			}
 			return field + "@" + parentKey + gqlref.CanonArgs(args) + idxSuffix(idx)
 		}
 	}
